@@ -34,10 +34,10 @@ SPEC = {
         'defines': ['-DKF_C18_1'],
         'obligations': [
         ] + [sc(x) for x in ['AAAD', 'AADA', 'AADD', 'ADAD', 'ADDA', 'DADA', 'ADCA', 'AADC', 'AXAD', 'ADXA']] + [
-            sc(x, tier='thorough', timeout=1800) for x in ['AAAA', 'ADAA', 'ADDD', 'DAAD', 'DDAD', 'ACDA', 'AAXD', 'ADCD', 'ooo', 'oooo']] + [
-            sc(x, tier='thorough', timeout=7200) for x in ['AADAD', 'AADDA', 'ADADA', 'AAADD', 'ADCAD', 'AAXAD', 'ooCoo', 'ooXoo', 'ooooo']] + [
+            sc(x, tier='thorough', timeout=1200) for x in ['AAAA', 'ADAA', 'ADDD', 'DAAD', 'DDAD', 'ACDA', 'AAXD', 'ADCD', 'ooo', 'oooo']] + [
+            sc(x, tier='thorough', timeout=1200) for x in ['AADAD', 'AADDA', 'ADADA', 'AAADD', 'ADCAD', 'AAXAD', 'ooCoo', 'ooXoo', 'ooooo']] + [
             ob('harness_same_class_2', bounds=S % (2, 2), lists=4),
-            ob('harness_same_class_3', bounds=S % (3, 3), lists=6, unwind=9, tier='thorough', timeout=3600),
+            ob('harness_same_class_3', bounds=S % (3, 3), lists=6, unwind=9, tier='thorough', timeout=1200),
         ],
     }, {
         'name': 'global', 'wrapper': 'w18g.cpp', 'harness': 'h18g.c', 'config': {},
